@@ -312,7 +312,7 @@ Inductive event := EvFrame (f : frame) | EvPeerUp.
 
 Record step := mkstep { s_now : Z; s_from : N; s_event : event; s_obs : obs }.
 
-Record acase := mkacase { k_signing : bool; k_sleeping : bool; k_steps : list step }.
+Record acase := mkacase { k_start : Z; k_signing : bool; k_sleeping : bool; k_steps : list step }.
 
 Definition count_cb (k : kind) (ef : list effect) : N :=
   N.of_nat (length (filter (fun e => match e, k with ECallback KSleep, KSleep | ECallback KWake, KWake => true | _, _ => false end) ef)).
@@ -327,27 +327,44 @@ Definition default_cfg (signing : bool) : fcfg :=
 
 Definition model_peers : list N := [1; 2; 3]%N.
 
-Definition step_ok (cfg : fcfg) (st : astate) (s : step) : astate * bool :=
-  let '(st', ef) :=
+(** The flooder's own cleanup loop runs every SeenCacheTTL/2 from the instant
+    the flooder was created ([start]).  Passes only remove entries and a later
+    pass removes whatever an earlier one did, so the passes that fell into
+    the interval (prev, now] amount to the last of them. *)
+Definition cleanup_interval (cfg : fcfg) : Z := Z.quot (f_ttl cfg) 2.
+
+Definition ticks_between (cfg : fcfg) (start prev now : Z) (ca : list entry) : list entry :=
+  let iv := cleanup_interval cfg in
+  if iv <=? 0 then ca else
+  let last := start + ((now - start) / iv) * iv in
+  if (prev <? last) && (start <? last) then cleanup cfg last [] ca else ca.
+
+(** one step: cleanup passes since the previous step, the event, cleanup
+    passes during the event (handleSleepCommand pauses 100 ms) *)
+Definition step_ok (cfg : fcfg) (start prev : Z) (st : astate) (s : step) : astate * Z * bool :=
+  let st0 := mkastate (a_sleep st) (ticks_between cfg start prev (s_now s) (a_cache st)) (a_pending st) in
+  let '(st1, ef, now') :=
     match s_event s with
-    | EvFrame f => let '(st', ef, _) := on_frame cfg (s_now s) model_peers (s_from s) f st in (st', ef)
-    | EvPeerUp => on_peer_up cfg (s_now s) (s_from s) st
+    | EvFrame f => on_frame cfg (s_now s) model_peers (s_from s) f st0
+    | EvPeerUp => let '(st', ef) := on_peer_up cfg (s_now s) (s_from s) st0 in (st', ef, s_now s)
     end in
+  let st' := mkastate (a_sleep st1) (ticks_between cfg start (s_now s) now' (a_cache st1)) (a_pending st1) in
   let o := s_obs s in
-  (st',
+  (st', now',
    N.eqb (sstate_code (a_sleep st')) (ob_state o) &&
    N.eqb (count_cb KSleep ef) (ob_sleep_cb o) && N.eqb (count_cb KWake ef) (ob_wake_cb o) &&
    list_N_eqb (fwd_of KSleep ef) (ob_fwd_sleep o) && list_N_eqb (fwd_of KWake ef) (ob_fwd_wake o) &&
    keys_eqb (sorted_keys (a_cache st')) (ob_keys o)).
 
-Fixpoint steps_ok (cfg : fcfg) (st : astate) (ss : list step) : bool :=
+Fixpoint steps_ok (cfg : fcfg) (start prev : Z) (st : astate) (ss : list step) : bool :=
   match ss with
   | [] => true
-  | s :: r => let '(st', ok) := step_ok cfg st s in ok && steps_ok cfg st' r
+  | s :: r => let '(st', prev', ok) := step_ok cfg start prev st s in ok && steps_ok cfg start prev' st' r
   end.
 
 Definition acase_ok (k : acase) : bool :=
-  steps_ok (default_cfg (k_signing k)) (mkastate (if k_sleeping k then Sleeping else Awake) [] None) (k_steps k).
+  steps_ok (default_cfg (k_signing k)) (k_start k) (k_start k)
+           (mkastate (if k_sleeping k then Sleeping else Awake) [] None) (k_steps k).
 
 Fixpoint amismatches_from (i : N) (cs : list acase) : list N :=
   match cs with
